@@ -118,8 +118,10 @@ func (SlidingWindow) New(cfg Config) fiber.Handler {
 		err := c.Next()
 
 		// Check for SkipFailedRequests and SkipSuccessfulRequests
-		if (cfg.SkipSuccessfulRequests && c.Response().StatusCode() < fiber.StatusBadRequest) ||
-			(cfg.SkipFailedRequests && c.Response().StatusCode() >= fiber.StatusBadRequest) {
+		// (a returned error counts as the status it will be answered with)
+		status := getEffectiveStatusCode(c, err)
+		if (cfg.SkipSuccessfulRequests && status < fiber.StatusBadRequest) ||
+			(cfg.SkipFailedRequests && status >= fiber.StatusBadRequest) {
 			// Lock entry
 			mux.Lock()
 			e = manager.get(key)
